@@ -2,6 +2,7 @@ package jd
 
 import (
 	"encoding/json"
+	"sort"
 
 	"gopkg.in/yaml.v2"
 )
@@ -15,9 +16,36 @@ func renderJson(i interface{}) string {
 }
 
 func renderYaml(i interface{}) string {
-	s, err := yaml.Marshal(i)
+	s, err := yaml.Marshal(sortedYaml(i))
 	if err != nil {
 		panic(err)
 	}
 	return string(s)
+}
+
+// sortedYaml replaces every map by a yaml.MapSlice with its keys in
+// sorted order. The key ordering of yaml.v2 is not transitive for keys
+// that look like numbers, so the rendered order depended on Go's map
+// iteration order.
+func sortedYaml(i interface{}) interface{} {
+	switch t := i.(type) {
+	case map[string]interface{}:
+		keys := make([]string, 0, len(t))
+		for k := range t {
+			keys = append(keys, k)
+		}
+		sort.Strings(keys)
+		m := make(yaml.MapSlice, 0, len(t))
+		for _, k := range keys {
+			m = append(m, yaml.MapItem{Key: k, Value: sortedYaml(t[k])})
+		}
+		return m
+	case []interface{}:
+		l := make([]interface{}, len(t))
+		for j, e := range t {
+			l[j] = sortedYaml(e)
+		}
+		return l
+	}
+	return i
 }
